@@ -328,6 +328,19 @@ def subpagename_fn(
         return pagename_fn(ctx, fn_name, [t], lambda x: x)
 
 
+def _talk_namespace_name(ctx: "Wtp", prefix: str) -> str:
+    """Returns the local name of the talk namespace of namespace ``prefix``
+    (a key of NAMESPACE_DATA); a talk namespace is its own talk namespace
+    and namespaces without one fall back to Talk."""
+    talk = ctx.NAMESPACE_DATA.get(prefix + " talk")
+    if talk is None:
+        if ctx.NAMESPACE_DATA[prefix].get("istalk"):
+            talk = ctx.NAMESPACE_DATA[prefix]
+        else:
+            talk = ctx.NAMESPACE_DATA["Talk"]
+    return talk["name"]
+
+
 def talkpagename_fn(
     ctx: "Wtp", fn_name: str, args: list[str], expander: Callable[[str], str]
 ) -> str:
@@ -343,9 +356,7 @@ def talkpagename_fn(
         if prefix not in ctx.NAMESPACE_DATA:
             return ctx.NAMESPACE_DATA["Talk"]["name"] + ":" + ctx.title
         return (
-            ctx.NAMESPACE_DATA[prefix + " talk"]["name"]
-            + ":"
-            + ctx.title[ofs + 1 :]
+            _talk_namespace_name(ctx, prefix) + ":" + ctx.title[ofs + 1 :]
         )
 
 
@@ -394,7 +405,7 @@ def talkspace_fn(
     t = expander(args[0]) if args else ctx.title or "ERROR_NAMESPACE"
     for prefix in ctx.NAMESPACE_DATA:
         if t.startswith(prefix + ":"):
-            return ctx.NAMESPACE_DATA[prefix + " talk"]["name"]
+            return _talk_namespace_name(ctx, prefix)
     return ctx.NAMESPACE_DATA["Talk"]["name"]
 
 
